@@ -107,6 +107,13 @@ pub struct SyncCase {
     /// (lowest height first) before the next burst
     #[serde(default)]
     pub burst_policy: u8,
+    /// second round: once the node has converged the connection drops, the node adds `a2` blocks of
+    /// its own and the peer `b2` > a2 blocks on the common tip, and they connect again (b2 = 0: no
+    /// second round)
+    #[serde(default)]
+    pub a2: u8,
+    #[serde(default)]
+    pub b2: u8,
 }
 
 #[derive(Debug, Default)]
@@ -116,6 +123,7 @@ pub struct SyncInfo {
     pub out_of_order_completions: usize,
     pub overtaking_messages: usize,
     pub converged: bool,
+    pub second_round: bool,
 }
 
 fn bspec(i: usize, parent: Option<u16>, dt: u32) -> BlockSpec {
@@ -140,10 +148,23 @@ pub fn run_sync(case: &SyncCase) -> (Vec<(String, String)>, SyncInfo) {
         let parent = if j == 0 { Some((((p as u64) << 16).div_ceil((1 + p + a + j) as u64)) as u16) } else { None };
         blocks.push(bspec(70 + j, parent, 240));
     }
+    let (a2, b2) = if case.b2 > 0 { ((case.a2 as usize).min(case.b2 as usize - 1), case.b2 as usize) } else { (0, 0) };
+    for j in 0..a2 {
+        blocks.push(bspec(90 + j, None, 270));
+    }
+    for j in 0..b2 {
+        // the first one builds on the peer's first tip (index p + a + b)
+        let parent = if j == 0 && a2 > 0 { Some(((((p + a + b) as u64) << 16).div_ceil((1 + p + a + b + a2) as u64)) as u16) } else { None };
+        blocks.push(bspec(110 + j, parent, 230));
+    }
     let spec = HistSpec { ncfg, treasury: 0, issuance: vec![(0, 5_000_000), (1, 6_000_000)], blocks, gt_policy: true };
     let built = block_on(build_history(&spec));
-    if built.blocks.len() != 1 + p + a + b {
+    if built.blocks.len() != 1 + p + a + b + a2 + b2 {
         return (v, info); // builder truncated (not the subject)
+    }
+    let first = 1 + p + a + b;
+    if a2 > 0 && (built.blocks[first].previous_block_hash != built.blocks[first - 1].hash || built.blocks[first + a2].previous_block_hash != built.blocks[first - 1].hash) {
+        return (v, info); // second-round branches do not both start at the first tip (not the subject)
     }
     let by_hash: BTreeMap<SaitoHash, &Block> = built.blocks.iter().map(|x| (x.hash, x)).collect();
     let clock = Arc::new(AtomicU64::new(5_000_000));
@@ -161,11 +182,11 @@ pub fn run_sync(case: &SyncCase) -> (Vec<(String, String)>, SyncInfo) {
     for i in 1 + p + a..1 + p + a + b {
         nb.add_direct(built.blocks[i].clone());
     }
-    let peer_tip = built.blocks.last().unwrap().hash;
+    let mut peer_tip = built.blocks[first - 1].hash;
     if nb.tip().1 != peer_tip {
         return (v, info);
     }
-    let needed: BTreeSet<SaitoHash> = built.blocks[1 + p + a..].iter().map(|x| x.hash).collect();
+    let mut needed: BTreeSet<SaitoHash> = built.blocks[1 + p + a..first].iter().map(|x| x.hash).collect();
     let mut requested: BTreeSet<SaitoHash> = BTreeSet::new();
 
     // connect: A's static peer slot is index 1; B sees A as 10
@@ -189,133 +210,172 @@ pub fn run_sync(case: &SyncCase) -> (Vec<(String, String)>, SyncInfo) {
     let mut burst_left = case.burst_policy;
     let mut internal_streak = 0u32;
     let max_steps = if case.burst_policy > 0 { 6000 } else { max_steps };
-    while info.steps < max_steps && panicked.is_none() {
-        info.steps += 1;
-        for (_i, buf) in na.take_outbox() {
-            a2b.push_back(buf);
-        }
-        for (_i, buf) in nb.take_outbox() {
-            b2a.push_back(buf);
-        }
-        na.io.st.broadcast.lock().unwrap().clear();
-        nb.io.st.broadcast.lock().unwrap().clear();
-        for (h, peer, _u, id) in na.take_fetches() {
-            requested.insert(h);
-            info.fetches += 1;
-            fetches.push((h, peer, id));
-        }
-        nb.take_fetches(); // B may try to fetch A's side blocks: not served (A's chain is the shorter one)
-        // enabled actions
-        let mut acts: Vec<u8> = vec![];
-        if !a2b.is_empty() {
-            acts.push(0);
-        }
-        if !b2a.is_empty() {
-            acts.push(1);
-        }
-        if b2a.len() >= 2 {
-            acts.push(4); // the newest message from the peer overtakes the older ones
-        }
-        for k in 0..fetches.len().min(4) {
-            acts.push(10 + k as u8);
-        }
-        if !na.r_ver.is_empty() || !na.r_cons.is_empty() || !na.r_rout.is_empty() {
-            acts.push(2);
-        }
-        if !nb.r_ver.is_empty() || !nb.r_cons.is_empty() || !nb.r_rout.is_empty() {
-            acts.push(3);
-        }
-        if acts.is_empty() {
-            // quiescent: a few timer ticks give retries a chance
-            if idle_ticks >= 6 {
-                break;
+    let mut max_steps = max_steps;
+    let rounds = if b2 > 0 { 2 } else { 1 };
+    for round in 1..=rounds {
+        if round == 2 {
+            if panicked.is_some() || na.tip().1 != peer_tip || nb.tip().1 != peer_tip {
+                break; // the first round is judged below
             }
-            idle_ticks += 1;
-            clock.fetch_add(2_500, Ordering::SeqCst);
-            chk!(na.routing_timer(2_500));
-            chk!(nb.routing_timer(2_500));
-            continue;
+            // the connection drops, both sides grow, they connect again
+            info.second_round = true;
+            chk!(na.net_event(NetworkEvent::PeerDisconnected { peer_index: 1, disconnect_type: saito_core::core::io::network::PeerDisconnectType::ExternalDisconnect }));
+            chk!(nb.net_event(NetworkEvent::PeerDisconnected { peer_index: 10, disconnect_type: saito_core::core::io::network::PeerDisconnectType::ExternalDisconnect }));
+            let _ = na.pump();
+            let _ = nb.pump();
+            a2b.clear();
+            b2a.clear();
+            fetches.clear();
+            na.take_outbox();
+            nb.take_outbox();
+            na.take_fetches();
+            nb.take_fetches();
+            for i in first..first + a2 {
+                na.add_direct(built.blocks[i].clone());
+            }
+            for i in first + a2..first + a2 + b2 {
+                nb.add_direct(built.blocks[i].clone());
+            }
+            peer_tip = built.blocks.last().unwrap().hash;
+            if nb.tip().1 != peer_tip {
+                return (v, info);
+            }
+            needed = built.blocks[first + a2..].iter().map(|x| x.hash).collect();
+            requested.clear();
+            chk!(na.net_event(NetworkEvent::PeerConnectionResult { result: Ok((1, None)) }));
+            chk!(nb.net_event(NetworkEvent::PeerConnectionResult { result: Ok((10, None)) }));
+            idle_ticks = 0;
+            last_completed_height = 0;
+            max_steps += info.steps;
         }
-        idle_ticks = 0;
-        let pick = if case.burst_policy > 0 {
-            // internal events first, but fairly: a parked block makes the node re-examine its queue
-            // over and over, which must not starve the network side for ever
-            if acts.contains(&2) && internal_streak < 30 {
-                internal_streak += 1;
-                2
-            } else if acts.contains(&3) && internal_streak < 60 {
-                internal_streak += 1;
-                3
-            } else if { internal_streak = 0; acts.contains(&0) } {
-                0
-            } else if burst_left > 0 && !b2a.is_empty() {
-                burst_left -= 1;
-                if b2a.len() >= 2 {
-                    4
+        while info.steps < max_steps && panicked.is_none() {
+            info.steps += 1;
+            for (_i, buf) in na.take_outbox() {
+                a2b.push_back(buf);
+            }
+            for (_i, buf) in nb.take_outbox() {
+                b2a.push_back(buf);
+            }
+            na.io.st.broadcast.lock().unwrap().clear();
+            nb.io.st.broadcast.lock().unwrap().clear();
+            for (h, peer, _u, id) in na.take_fetches() {
+                requested.insert(h);
+                info.fetches += 1;
+                fetches.push((h, peer, id));
+            }
+            nb.take_fetches(); // B may try to fetch A's side blocks: not served (A's chain is the shorter one)
+            // enabled actions
+            let mut acts: Vec<u8> = vec![];
+            if !a2b.is_empty() {
+                acts.push(0);
+            }
+            if !b2a.is_empty() {
+                acts.push(1);
+            }
+            if b2a.len() >= 2 {
+                acts.push(4); // the newest message from the peer overtakes the older ones
+            }
+            for k in 0..fetches.len().min(4) {
+                acts.push(10 + k as u8);
+            }
+            if !na.r_ver.is_empty() || !na.r_cons.is_empty() || !na.r_rout.is_empty() {
+                acts.push(2);
+            }
+            if !nb.r_ver.is_empty() || !nb.r_cons.is_empty() || !nb.r_rout.is_empty() {
+                acts.push(3);
+            }
+            if acts.is_empty() {
+                // quiescent: a few timer ticks give retries a chance
+                if idle_ticks >= 6 {
+                    break;
+                }
+                idle_ticks += 1;
+                clock.fetch_add(2_500, Ordering::SeqCst);
+                chk!(na.routing_timer(2_500));
+                chk!(nb.routing_timer(2_500));
+                continue;
+            }
+            idle_ticks = 0;
+            let pick = if case.burst_policy > 0 {
+                // internal events first, but fairly: a parked block makes the node re-examine its queue
+                // over and over, which must not starve the network side for ever
+                if acts.contains(&2) && internal_streak < 30 {
+                    internal_streak += 1;
+                    2
+                } else if acts.contains(&3) && internal_streak < 60 {
+                    internal_streak += 1;
+                    3
+                } else if { internal_streak = 0; acts.contains(&0) } {
+                    0
+                } else if burst_left > 0 && !b2a.is_empty() {
+                    burst_left -= 1;
+                    if b2a.len() >= 2 {
+                        4
+                    } else {
+                        1
+                    }
+                } else if !fetches.is_empty() {
+                    // lowest height first
+                    let k = (0..fetches.len().min(4)).min_by_key(|i| fetches[*i].2).unwrap();
+                    if fetches.len() == 1 {
+                        burst_left = case.burst_policy;
+                    }
+                    10 + k as u8
                 } else {
-                    1
-                }
-            } else if !fetches.is_empty() {
-                // lowest height first
-                let k = (0..fetches.len().min(4)).min_by_key(|i| fetches[*i].2).unwrap();
-                if fetches.len() == 1 {
                     burst_left = case.burst_policy;
+                    acts[0]
                 }
-                10 + k as u8
             } else {
-                burst_left = case.burst_policy;
-                acts[0]
-            }
-        } else {
-            match sched.next() {
-                Some(s) => acts[(s as usize * acts.len()) >> 16],
-                None => acts[0],
-            }
-        };
-        if std::env::var("VERIF_TRACE").is_ok() {
-            let tag = |q: &VecDeque<Vec<u8>>| q.front().map(|b| b.first().copied().unwrap_or(255)).unwrap_or(254);
-            eprintln!("step {} pick {} acts {:?} a2b {} (tag {}) b2a {} (tag {}) fetches {:?} tipA {}", info.steps, pick, acts, a2b.len(), tag(&a2b), b2a.len(), tag(&b2a), fetches.iter().map(|f| f.2).collect::<Vec<_>>(), na.tip().0);
-        }
-        match pick {
-            0 => {
-                let buf = a2b.pop_front().unwrap();
-                chk!(nb.net_event(NetworkEvent::IncomingNetworkMessage { peer_index: 10, buffer: buf }));
-            }
-            1 => {
-                let buf = b2a.pop_front().unwrap();
-                chk!(na.net_event(NetworkEvent::IncomingNetworkMessage { peer_index: 1, buffer: buf }));
-            }
-            4 => {
-                let buf = b2a.pop_back().unwrap();
-                info.overtaking_messages += 1;
-                chk!(na.net_event(NetworkEvent::IncomingNetworkMessage { peer_index: 1, buffer: buf }));
-            }
-            2 => {
-                // one internal event of A (verification first, then consensus, then routing)
-                let o = na.pop_verification().or_else(|| na.pop_consensus()).or_else(|| na.pop_routing());
-                if let Some(o) = o {
-                    chk!(o);
+                match sched.next() {
+                    Some(s) => acts[(s as usize * acts.len()) >> 16],
+                    None => acts[0],
                 }
-                while na.r_miner.try_recv().is_ok() {}
-                while na.r_stat.try_recv().is_ok() {}
+            };
+            if std::env::var("VERIF_TRACE").is_ok() {
+                let tag = |q: &VecDeque<Vec<u8>>| q.front().map(|b| b.first().copied().unwrap_or(255)).unwrap_or(254);
+                eprintln!("step {} pick {} acts {:?} a2b {} (tag {}) b2a {} (tag {}) fetches {:?} tipA {}", info.steps, pick, acts, a2b.len(), tag(&a2b), b2a.len(), tag(&b2a), fetches.iter().map(|f| f.2).collect::<Vec<_>>(), na.tip().0);
             }
-            3 => {
-                let o = nb.pop_verification().or_else(|| nb.pop_consensus()).or_else(|| nb.pop_routing());
-                if let Some(o) = o {
-                    chk!(o);
+            match pick {
+                0 => {
+                    let buf = a2b.pop_front().unwrap();
+                    chk!(nb.net_event(NetworkEvent::IncomingNetworkMessage { peer_index: 10, buffer: buf }));
                 }
-                while nb.r_miner.try_recv().is_ok() {}
-                while nb.r_stat.try_recv().is_ok() {}
-            }
-            k => {
-                let (h, peer, id) = fetches.remove((k - 10) as usize);
-                if id < last_completed_height {
-                    info.out_of_order_completions += 1;
+                1 => {
+                    let buf = b2a.pop_front().unwrap();
+                    chk!(na.net_event(NetworkEvent::IncomingNetworkMessage { peer_index: 1, buffer: buf }));
                 }
-                last_completed_height = last_completed_height.max(id);
-                match by_hash.get(&h) {
-                    Some(blk) => chk!(na.net_event(NetworkEvent::BlockFetched { block_hash: h, block_id: id, peer_index: peer, buffer: block_bytes(blk) })),
-                    None => chk!(na.net_event(NetworkEvent::BlockFetchFailed { block_hash: h, block_id: id, peer_index: peer })),
+                4 => {
+                    let buf = b2a.pop_back().unwrap();
+                    info.overtaking_messages += 1;
+                    chk!(na.net_event(NetworkEvent::IncomingNetworkMessage { peer_index: 1, buffer: buf }));
+                }
+                2 => {
+                    // one internal event of A (verification first, then consensus, then routing)
+                    let o = na.pop_verification().or_else(|| na.pop_consensus()).or_else(|| na.pop_routing());
+                    if let Some(o) = o {
+                        chk!(o);
+                    }
+                    while na.r_miner.try_recv().is_ok() {}
+                    while na.r_stat.try_recv().is_ok() {}
+                }
+                3 => {
+                    let o = nb.pop_verification().or_else(|| nb.pop_consensus()).or_else(|| nb.pop_routing());
+                    if let Some(o) = o {
+                        chk!(o);
+                    }
+                    while nb.r_miner.try_recv().is_ok() {}
+                    while nb.r_stat.try_recv().is_ok() {}
+                }
+                k => {
+                    let (h, peer, id) = fetches.remove((k - 10) as usize);
+                    if id < last_completed_height {
+                        info.out_of_order_completions += 1;
+                    }
+                    last_completed_height = last_completed_height.max(id);
+                    match by_hash.get(&h) {
+                        Some(blk) => chk!(na.net_event(NetworkEvent::BlockFetched { block_hash: h, block_id: id, peer_index: peer, buffer: block_bytes(blk) })),
+                        None => chk!(na.net_event(NetworkEvent::BlockFetchFailed { block_hash: h, block_id: id, peer_index: peer })),
+                    }
                 }
             }
         }
@@ -328,7 +388,7 @@ pub fn run_sync(case: &SyncCase) -> (Vec<(String, String)>, SyncInfo) {
     let tb = nb.tip();
     info.converged = ta.1 == peer_tip && tb.1 == peer_tip;
     let ooo = info.out_of_order_completions > 0;
-    let cfgs = format!("loading_completed={}", case.loading_completed);
+    let cfgs = format!("loading_completed={}{}", case.loading_completed, if info.second_round { "|second_round" } else { "" });
     if tb.1 != peer_tip {
         v.push((format!("C15|peer_left_its_chain|{cfgs}"), format!("the peer holding the longer chain moved away from its tip (now height {})", tb.0)));
     }
@@ -336,7 +396,7 @@ pub fn run_sync(case: &SyncCase) -> (Vec<(String, String)>, SyncInfo) {
         let key = if !case.loading_completed && ooo { "C15|orphan_path".to_string() } else { format!("C15|not_converged|{cfgs}|out_of_order={ooo}") };
         v.push((
             key,
-            format!("prefix {p}, own suffix {a}, peer suffix {b}: at quiescence the syncing node is at height {} (hash {}), the peer at height {}; {} fetches, {} completed out of order, steps {}", ta.0, hx(&ta.1), tb.0, info.fetches, info.out_of_order_completions, info.steps),
+            format!("prefix {p}, own suffix {a}, peer suffix {b}{}: at quiescence the syncing node is at height {} (hash {}), the peer at height {}; {} fetches, {} completed out of order, steps {}", if info.second_round { format!(" (second round after a reconnect: node +{a2}, peer +{b2} on the common tip)") } else { String::new() }, ta.0, hx(&ta.1), tb.0, info.fetches, info.out_of_order_completions, info.steps),
         ));
     }
     if !needed.is_subset(&requested) && ta.1 != peer_tip {
@@ -355,6 +415,9 @@ fn eval_sync(c: &mut Ctx, case: &SyncCase, counting: bool) -> Vec<(String, Strin
         if info.converged {
             c.class("converged");
         }
+        if info.second_round {
+            c.class(if case.a2 > 0 { "second_round_after_reconnect_with_own_fork" } else { "second_round_after_reconnect" });
+        }
         if case.a >= 1 {
             c.class("node_must_reorganise");
         }
@@ -369,7 +432,7 @@ fn eval_sync(c: &mut Ctx, case: &SyncCase, counting: bool) -> Vec<(String, Strin
 }
 
 pub fn run(ctx: &mut Ctx) {
-    ctx.rule = "(a) synthetic block rings up to 2e5 high (below/above every fork-id checkpoint) for two chains sharing a prefix of generated length; hashes constructed so that distinct blocks never agree on a whole checkpoint byte pair (the by-design 2^-16 fingerprint collision is outside the domain) while single bytes agree often; oracle: generate_last_shared_ancestor(peer tip, peer fork id) <= true fork height, peer ahead and behind. (b) two nodes built from the real routing/verification/consensus threads: every (prefix p, own suffix a, peer suffix b > a) with p,a,b <= N enumerated under in-order scheduling plus generated (p,a,b) up to 12/6/14 under generated schedules (which message, which of up to 4 pending fetches - any completion order -, which node's internal event next); block fetches are served from the peer's chain; oracle at quiescence (after timer ticks): the syncing node is on the peer's tip, the peer did not move, every block the node lacked was requested. non-trivial: (b) the node must reorganise (a >= 1) and at least one fetch completed out of order; (a) counted by distinct case".into();
+    ctx.rule = "(a) synthetic block rings up to 2e5 high (below/above every fork-id checkpoint) for two chains sharing a prefix of generated length; hashes constructed so that distinct blocks never agree on a whole checkpoint byte pair (the by-design 2^-16 fingerprint collision is outside the domain) while single bytes agree often; oracle: generate_last_shared_ancestor(peer tip, peer fork id) <= true fork height, peer ahead and behind. (b) two nodes built from the real routing/verification/consensus threads: every (prefix p, own suffix a, peer suffix b > a) with p,a,b <= N enumerated under in-order scheduling plus generated (p,a,b) up to 12/6/14 under generated schedules (which message, which of up to 4 pending fetches - any completion order -, which node's internal event next); block fetches are served from the peer's chain; a third of the generated cases (and 36 enumerated ones) have a second round: after convergence the connection drops, the node adds a2 blocks of its own and the peer b2 > a2 blocks on the common tip, and they connect again; oracle at quiescence (after timer ticks) of each round: the syncing node is on the peer's tip, the peer did not move, every block the node lacked was requested. non-trivial: (b) the node must reorganise (a >= 1) and at least one fetch completed out of order; (a) counted by distinct case".into();
     // (a)
     let n = ctx.tier.pick(3_000u32, 40_000);
     let mut r = runner(ctx.seed ^ 0xC15A, 1);
@@ -397,11 +460,23 @@ pub fn run(ctx: &mut Ctx) {
         for p in 0..=nmax {
             for a in 0..=nmax.min(4) {
                 for b in (a + 1)..=(nmax + 1) {
-                    let case = SyncCase { p, a, b, loading_completed: lc, schedule: vec![], batch: 3, burst_policy: 0 };
+                    let case = SyncCase { p, a, b, loading_completed: lc, schedule: vec![], batch: 3, burst_policy: 0, a2: 0, b2: 0 };
                     count += 1;
                     for (k, w) in eval_sync(ctx, &case, true) {
                         ctx.violation(&k, w, json!({"check": "sync_enumerated", "case": case}));
                     }
+                }
+            }
+        }
+    }
+    // second rounds: after convergence the connection drops, node +a2 / peer +b2 on the common tip, reconnect
+    for (p, a, b) in [(0u8, 0u8, 2u8), (3, 1, 3), (9, 2, 4), (12, 0, 9)] {
+        for a2 in 0..=2u8 {
+            for b2 in (a2 + 1)..=(a2 + 3) {
+                let case = SyncCase { p, a, b, loading_completed: true, schedule: vec![], batch: 3, burst_policy: 0, a2, b2 };
+                count += 1;
+                for (k, w) in eval_sync(ctx, &case, true) {
+                    ctx.violation(&k, w, json!({"check": "sync_second_round", "case": case}));
                 }
             }
         }
@@ -424,7 +499,7 @@ pub fn run(ctx: &mut Ctx) {
                         _ => (i.wrapping_mul(40503)) ^ 0x5A5A,
                     })
                     .collect();
-                let case = SyncCase { p: 4, a: 3, b, loading_completed: true, schedule, batch, burst_policy: 0 };
+                let case = SyncCase { p: 4, a: 3, b, loading_completed: true, schedule, batch, burst_policy: 0, a2: 0, b2: 0 };
                 directed += 1;
                 for (k, w) in eval_sync(ctx, &case, true) {
                     ctx.violation(&k, w, json!({"check": "sync_directed", "case": case}));
@@ -437,7 +512,7 @@ pub fn run(ctx: &mut Ctx) {
     for b in [8u8, 14, 26] {
         for batch in [1u8, 2, 4, 10] {
             for k in [1u8, 2, 3, 5, 8] {
-                let case = SyncCase { p: 6, a: 4, b, loading_completed: true, schedule: vec![], batch, burst_policy: k };
+                let case = SyncCase { p: 6, a: 4, b, loading_completed: true, schedule: vec![], batch, burst_policy: k, a2: 0, b2: 0 };
                 directed += 1;
                 for (key, w) in eval_sync(ctx, &case, true) {
                     ctx.violation(&key, w, json!({"check": "sync_reversed_bursts", "case": case}));
@@ -446,8 +521,8 @@ pub fn run(ctx: &mut Ctx) {
         }
     }
     ctx.extra.insert("directed_sync_schedules".into(), json!(directed));
-    let strat = (0u8..12, 0u8..6, 1u8..14, prop_oneof![3 => Just(true), 1 => Just(false)], proptest::collection::vec(any::<u16>(), 0..120), prop_oneof![Just(1u8), Just(2u8), Just(4u8), Just(10u8)])
-        .prop_map(|(p, a, b, loading_completed, schedule, batch)| SyncCase { p, a, b: b.max(a + 1), loading_completed, schedule, batch, burst_policy: 0 });
+    let strat = (0u8..12, 0u8..6, 1u8..14, prop_oneof![3 => Just(true), 1 => Just(false)], proptest::collection::vec(any::<u16>(), 0..120), prop_oneof![Just(1u8), Just(2u8), Just(4u8), Just(10u8)], prop_oneof![2 => Just((0u8, 0u8)), 1 => (0u8..4, 1u8..6)])
+        .prop_map(|(p, a, b, loading_completed, schedule, batch, (a2, b2))| SyncCase { p, a, b: b.max(a + 1), loading_completed, schedule, batch, burst_policy: 0, a2, b2 });
     let cases = ctx.tier.pick(250u32, 8_000);
     pbt_run(ctx, "sync_schedules", cases, strat, |c, case, counting| eval_sync(c, case, counting));
 }
